@@ -5,6 +5,7 @@ spec = {
               "after_style": "func"|"list"|"expr", "marks": ["skip","skipif_true","skipif_false","persist",
               "try_first","try_last","markone","marktwo"], "beh": "ok"|"early"|"late"|"omit:k", "style": "default"|"annotated"|
               "kwargs"|"return", "gen": bool,
+              # optional (C04 stream "dirlink"): "dirdep": [producer id…] — depends on the DirectoryNode product (`dirprod`) of those tasks
               # optional (C06/C17 streams): "mem_out": bool — an in-memory PythonNode product `mem<id>`; "mem_in": [producer id…] —
               # in-memory dependencies on those products; "pyhash_deps": [node…] ⊆ deps — declared as PythonNode(value=<content of
               # data/n<node>.txt at import>, hash=True) instead of a path node; "gen_marks": [marker…] on the child of a generator;
@@ -333,6 +334,8 @@ def render_module(spec, m: int, src_value=None) -> str:
                 late_params.append(f"hg{tid}: Annotated[tuple, PythonNode(value=({vals},), hash=True)]")
         for pidx in t.get("mem_in", []):
             late_params.append(f"mi{pidx}: Annotated[object, _verif_mem.node({pidx})]")
+        for pidx in t.get("dirdep", []):             # optional: depends on the DirectoryNode product (`dirprod`) of task pidx
+            late_params.append(f"dd{pidx}: Annotated[list, DirectoryNode(root_dir=DATA / 'dir{pidx}', pattern='*.txt')]")
         if t.get("mem_out"):
             late_params.append(f"mo{tid}: Annotated[object, _verif_mem.node({tid}), Product]")
         if t.get("hashed"):
